@@ -28,6 +28,10 @@ THEOREMS = [
     'C01.inside_iff_rel', 'C01.inside_indep_of_norms', 'C01.outside_eq_not_inside', 'C01.outside_iff_rel',
     'C01.volume_eq_absdet', 'C01.volume_normal', 'C01.volume_sq_eq_gram_det',
     'C01.clean_idem', 'C01.setVects_isClean', 'C01.lengths_roundtrip_clean', 'C01.hilos_roundtrip_clean',
+    # the Box object with its cached reciprocal vectors against the cache-free cell (Proofs/C01_Object.lean)
+    'C01.fresh_coherent', 'C01.obj_set_coherent', 'C01.obj_read_coherent', 'C01.obj_step_coherent', 'C01.obj_after_coherent',
+    'C01.obj_recip_eq', 'C01.obj_step_refines', 'C01.obj_run_refines', 'C01.obj_run_refines_fresh',
+    'C01.obj_recip_dual', 'C01.obj_c2r_r2c',
 ]
 PARTIAL = {
     'angles_in_degrees': 'read-back of lengths and angles is proved in squared / cosine form over every ordered field '
@@ -485,7 +489,8 @@ def gen_points(rng, V, o, regime, n, orth_exact=False):
                 s = [Fraction(rng.uniform(-1.0, 2.0)) for _ in range(3)]
             elif r < 0.85:      # close to a face but well beyond the rounding bound
                 s = [Fraction(rng.uniform(0.05, 0.95)) for _ in range(3)]
-                s[rng.randrange(3)] = Fraction(rng.choice([0.0, 1.0]) + rng.choice([-1, 1]) * rng.choice([1e-4, 1e-6]))
+                s[rng.randrange(3)] = Fraction(rng.choice([0.0, 1.0]) + rng.choice([-1, 1])
+                                               * rng.choice([1e-4, 1e-6, 10 ** rng.uniform(-13, -3)]))
             else:               # within rounding of a face: exempt (the model computes the margin)
                 s = [Fraction(rng.uniform(0.05, 0.95)) for _ in range(3)]
                 s[rng.randrange(3)] = Fraction(rng.choice([0.0, 1.0]) + rng.choice([-1, 0, 1]) * 1e-15)
@@ -494,7 +499,9 @@ def gen_points(rng, V, o, regime, n, orth_exact=False):
     return pts
 
 
-VARIANTS = ['list', 'tuple', 'array2', 'array3', 'array4', 'single-list', 'single-tuple', 'single-array']
+VARIANTS = ['list', 'tuple', 'array2', 'array3', 'array4', 'single-list', 'single-tuple', 'single-array', 'array33',
+            'noncontig', 'fortran']
+VARIANTS_ALL = VARIANTS + ['empty', 'empty3']
 
 
 def shape_variant(rng, pts, name=None):
@@ -512,6 +519,21 @@ def shape_variant(rng, pts, name=None):
         a = max(d for d in (1, 2, 3) if n % d == 0)
         arr = np.array(pts).reshape(a, n // a, 3)
         return name, (arr if name == 'array3' else arr.reshape(1, a, n // a, 3)), n
+    if name == 'array33':                # exactly three points: a (3,3) array, the shape of a matrix
+        if n < 3:
+            return 'array2', np.array(pts), n
+        return name, np.array(pts[:3]), 3
+    if name == 'noncontig':              # a strided view
+        big = np.full((n, 2, 6), 7.5)
+        view = big[:, 1, ::2]
+        view[...] = np.array(pts)
+        return name, view, n
+    if name == 'fortran':
+        return name, np.asfortranarray(np.array(pts)), n
+    if name == 'empty':
+        return name, np.zeros((0, 3)), 0
+    if name == 'empty3':
+        return name, np.zeros((2, 0, 3)), 0
     if name == 'single-list':
         return name, list(pts[0]), 1
     if name == 'single-tuple':
@@ -1195,30 +1217,46 @@ def _oracle_box(ctx, box, spec, pts, rels, viol, after_mutation=False, light=Fal
             viol(f"construct:{spec['kind']}:origin", f'{_short(spec)} ' + ('applied to an existing Box ' if after_mutation else '')
                  + f'gives origin {box.origin.tolist()}, expected {list(wo)}' + (' (the default)' if 'origin' not in kw else ''))
             return
+    if spec['kind'] == 'attr_origin':
+        if any(o[i] != Fraction(float(kw['origin'][i])) for i in range(3)):
+            viol('construct:attr_origin', f'origin set to {list(kw["origin"])} ({spec.get("via")}) reads back as '
+                 f'{box.origin.tolist()}{tag}')
+            return
+
+    def stored(got, x, big):
+        """a stored number is the given double itself, or 0 if the setter's clean-up applies (|x| <= ~1e-9 max|v|)."""
+        return got == x or (got == 0 and abs(x) <= Fraction(1e-9) * big * (1 + Fraction(1, 10 ** 6)))
+
     if spec['kind'] in ('vects', 'vectors', 'attr_vects'):
         Vin = kw['vects'] if 'vects' in kw else [kw['avect'], kw['bvect'], kw['cvect']]
+        big = max(abs(Fraction(float(x))) for r in Vin for x in r)
         for i in range(3):
             for j in range(3):
-                x = Fraction(float(Vin[i][j]))
-                if abs(V[i][j] - x) > Fraction(1e-9) * Fraction(vmax):
-                    viol('construct:vects', f'Box built from vectors {Vin} reports vects[{i}][{j}] = {float(V[i][j])!r}{tag}')
+                if not stored(V[i][j], Fraction(float(Vin[i][j])), big):
+                    viol('construct:vects', f'Box given the vectors {[list(map(float, r)) for r in Vin]} ({spec["kind"]} via '
+                         f'{spec.get("via")}) reports vects[{i}][{j}] = {float(V[i][j])!r}, not {float(Vin[i][j])!r}{tag}')
                     return
-    if spec['kind'] in ('lengths', 'hilos') :
+    if spec['kind'] in ('lengths', 'hilos'):
         if spec['kind'] == 'lengths':
-            want = [[kw['lx'], 0, 0], [kw.get('xy', 0.0), kw['ly'], 0], [kw.get('xz', 0.0), kw.get('yz', 0.0), kw['lz']]]
+            want = [[_F(kw['lx']), 0, 0], [_F(kw.get('xy', 0.0)), _F(kw['ly']), 0],
+                    [_F(kw.get('xz', 0.0)), _F(kw.get('yz', 0.0)), _F(kw['lz'])]]
             wo = kw.get('origin', [0.0, 0.0, 0.0])
+            slack = 0
         else:
-            want = [[kw['xhi'] - kw['xlo'], 0, 0], [kw.get('xy', 0.0), kw['yhi'] - kw['ylo'], 0],
-                    [kw.get('xz', 0.0), kw.get('yz', 0.0), kw['zhi'] - kw['zlo']]]
+            want = [[_F(kw['xhi']) - _F(kw['xlo']), 0, 0], [_F(kw.get('xy', 0.0)), _F(kw['yhi']) - _F(kw['ylo']), 0],
+                    [_F(kw.get('xz', 0.0)), _F(kw.get('yz', 0.0)), _F(kw['zhi']) - _F(kw['zlo'])]]
             wo = [kw['xlo'], kw['ylo'], kw['zlo']]
-        sc = max(vmax, max(abs(x) for x in wo), 1e-300)
+            slack = Fraction(U)          # one subtraction hi - lo, faithfully rounded
+        big = max(abs(x) for r in want for x in r)
         for i in range(3):
-            if abs(o[i] - Fraction(float(wo[i]))) > Fraction(1e-9 * sc):
+            if o[i] != _F(wo[i]):
                 viol(f"construct:{spec['kind']}:origin", f'{_short(spec)} gives origin {box.origin.tolist()}, expected {wo}{tag}')
                 return
             for j in range(3):
-                if abs(V[i][j] - Fraction(float(want[i][j]))) > Fraction(1e-9 * sc):
-                    viol(f"construct:{spec['kind']}", f'{_short(spec)} gives vects {box.vects.tolist()}, expected {want}{tag}')
+                w = want[i][j]
+                if not (stored(V[i][j], w, big) or (i == j and abs(V[i][j] - w) <= slack * abs(w))):
+                    viol(f"construct:{spec['kind']}", f'{_short(spec)} gives vects {box.vects.tolist()}, expected '
+                         f'{[[float(x) for x in r] for r in want]}{tag}')
                     return
     if spec['kind'] == 'abc':
         al, be, ga = kw.get('alpha', 90.0), kw.get('beta', 90.0), kw.get('gamma', 90.0)
@@ -1292,7 +1330,7 @@ def _oracle_box(ctx, box, spec, pts, rels, viol, after_mutation=False, light=Fal
 
     # -- conversions: mutual inverses, exact value, container independence ------------------------------
     Vinv = _inv3(V)
-    for name in (VARIANTS if not light else ['array2', VARIANTS[len(pts) % len(VARIANTS)]]):
+    for name in (VARIANTS_ALL if not light else ['array2', VARIANTS[len(pts) % len(VARIANTS)]]):
         _oracle_points(ctx, box, V, o, Vinv, cond, vmax, rmax, pts, rels, name, viol, tag, spec)
 
 
@@ -1359,6 +1397,18 @@ def _oracle_twin(ctx, box, spec, pts, rels, viol, tag, after_mutation):
         viol('twin:raises', f'Box(vects=box.vects, origin=box.origin) raised {type(e).__name__}: {e} for {box.vects.tolist()}')
         return
     ctx.stats.case('oracle:twin', (repr(_short(spec)), after_mutation, repr(pts[:1])))
+    # the invariant of Proofs/C01_Object.lean (CBox.Coherent) read off the real object: whatever is cached is the
+    # inverse-transpose of the current vectors
+    cache = getattr(box, '_Box__reciprocal_vects', 'absent')
+    if isinstance(cache, str):
+        if 'cache attribute' not in ' '.join(ctx.notes):
+            ctx.notes.append('Box has no cache attribute _Box__reciprocal_vects any more (hidden-state check skipped)')
+    elif cache is not None:
+        ctx.stats.case('oracle:cache-coherent', (repr(box.vects.tolist()), after_mutation))
+        want = np.linalg.inv(box.vects).T
+        if not np.array_equal(np.asarray(cache), want):
+            viol('state:cache-incoherent', f'the cached reciprocal vectors of the Box are {np.asarray(cache).tolist()} but its '
+                 f'vects are {box.vects.tolist()}, whose inverse-transpose is {want.tolist()}{tag}')
     here, there = _snapshot(box, P, S), _snapshot(twin, P, S)
     d = _snap_diff(here, there)
     if d is not None:
@@ -1475,7 +1525,7 @@ def _oracle_points(ctx, box, V, o, Vinv, cond, vmax, rmax, pts, rels, vname, vio
     ref = None
     try:
         cart = np.asarray(box.position_relative_to_cartesian(arg))
-        ref = np.asarray(box.position_relative_to_cartesian(np.array(rels[:used]))).reshape(-1, 3)
+        ref = np.asarray(box.position_relative_to_cartesian(np.array(rels[:used], dtype=float).reshape(-1, 3))).reshape(-1, 3)
     except Exception as e:  # noqa
         viol(f'r2c:{_container(vname)}-input', f'position_relative_to_cartesian raised {type(e).__name__}: {e} for {vname} input '
              f'{_show(arg)}{tag}', variant=vname)
@@ -1519,7 +1569,7 @@ def _oracle_points(ctx, box, V, o, Vinv, cond, vmax, rmax, pts, rels, vname, vio
         rel = None
     if rel is not None:
         ctx.stats.case('oracle:c2r:' + vname, (repr(pts), vname))
-        ref = np.asarray(box.position_cartesian_to_relative(np.array(pts[:used]))).reshape(-1, 3)
+        ref = np.asarray(box.position_cartesian_to_relative(np.array(pts[:used], dtype=float).reshape(-1, 3))).reshape(-1, 3)
         if rel.shape != np.asarray(arg, dtype=float).shape:
             viol('c2r:shape', f'position_cartesian_to_relative: input shape {np.asarray(arg, dtype=float).shape}, output {rel.shape}',
                  variant=vname)
